@@ -112,13 +112,42 @@ class Signal(np.lib.mixins.NDArrayOperatorsMixin):
 
         out_arr = tuple((i.data if isinstance(i, Signal) else i) for i in out)
 
-        results = ufunc(*in_arr, out=out_arr, **kwargs)
+        if any(isinstance(o, dask.array.Array) for o in out_arr):
+            # Dask rebinds the graph of ``out`` whatever the dtype of the result:
+            # apply NumPy's (same-kind) casting rule here, so that a signal keeps
+            # the dtype it has (and its class admits).
+            where = kwargs.pop("where", True)
+            results = ufunc(*in_arr, **kwargs)
+            if results is NotImplemented:
+                return NotImplemented
 
-        if results is NotImplemented:
-            return NotImplemented
+            results = results if isinstance(results, tuple) else (results,)
+            if where is not True:
+                # elements not selected keep what the output held
+                results = tuple(
+                    a if b is None else dask.array.where(where, a, b)
+                    for a, b in zip(results, out_arr)
+                )
 
-        if ufunc.nout == 1:
-            results = (results,)
+            for a, b in zip(results, out_arr):
+                if b is not None and not np.can_cast(a.dtype, b.dtype, "same_kind"):
+                    raise TypeError(
+                        f"Cannot cast ufunc '{ufunc.__name__}' output from "
+                        f"{a.dtype} to {b.dtype} with casting rule 'same_kind'"
+                    )
+
+            results = tuple(
+                a if b is None else dask.array.core.handle_out(b, a.astype(b.dtype))
+                for a, b in zip(results, out_arr)
+            )
+        else:
+            results = ufunc(*in_arr, out=out_arr, **kwargs)
+
+            if results is NotImplemented:
+                return NotImplemented
+
+            if ufunc.nout == 1:
+                results = (results,)
 
         # NumPy hands the call to a subclass operand first: wrap like the first signal
         ref = next((i for i in inputs if isinstance(i, Signal)), self)
